@@ -119,7 +119,7 @@ def c10_replay(ctx, idx, beh):
         plants = {"VERIF_LEAK_%d" % rng.randrange(1000): "leak%08x" % rng.randrange(1 << 32) for _ in range(2)}
         plants["SHLVL_VERIF"] = "leak%08x" % rng.randrange(1 << 32)
         planted.update(plants)
-        rc, outp, started, _ = repo.plz(["build"] + [e2e.label(t) for t in targets], env=dict(caller, **plants))
+        rc, outp, started, _ = repo.plz(["build"] + [e2e.label(t) for t in targets], env=dict(caller, **plants), threads=2)
         trace.append("build under %s -> rc=%d ran=%s" % (json.dumps(caller, sort_keys=True), rc, sorted(started)))
         detail = dict(behaviour=beh, step=si, trace=list(trace))
         if rc != 0:
@@ -458,7 +458,7 @@ def c35_replay(ctx, idx, beh):
             trace.append("poison %d cached artifact(s) %s" % (n, "in place" if inplace else "by replacement"))
         elif act == "Build":
             builds += 1
-            rc, outp, started, _ = repo.plz(["build", LABEL])
+            rc, outp, started, _ = repo.plz(["build", LABEL], threads=2)
             trace.append("build -> rc=%d ran=%s (spec: %s)" % (rc, started, st["expect"]))
             detail = dict(behaviour=beh, step=si, trace=list(trace), output=outp[-1200:])
             gen = os.path.join(repo.root, "plz-out", "gen", PKG)
